@@ -261,6 +261,21 @@ pub fn items(tier: Tier, id: &str) -> Vec<Item> {
             out.push(Item { cfgs: c.to_vec(), f32_too: false });
         }
     }
+    if id == "C09" || id == "C11" || id == "C13" {
+        // many channels (24), where per-channel bookkeeping sized for "a few" runs out
+        let cfgs = vec![
+            Cfg::sinc(Kind::SI, 0.8, 2.0, 8, 8, 2, Interp::Cubic, Kernel::Dispatch).with_channels(24),
+            Cfg::sinc(Kind::SO, 0.8, 2.0, 8, 8, 2, Interp::Linear, Kernel::Dispatch).with_channels(24),
+            Cfg::fast(Kind::FI, 0.75, 1.5, 8, Degree::Cubic).with_channels(24),
+            Cfg::fast(Kind::FO, 0.75, 1.5, 8, Degree::Cubic).with_channels(24),
+            Cfg::fft(Kind::XI, 3, 2, 12, 2).with_channels(24),
+            Cfg::fft(Kind::XO, 2, 3, 12, 2).with_channels(24),
+            Cfg::fft(Kind::XX, 3, 2, 12, 1).with_channels(24),
+        ];
+        for c in cfgs.chunks(1) {
+            out.push(Item { cfgs: c.to_vec(), f32_too: false });
+        }
+    }
     if id == "C09" || ((id == "C10" || id == "C13") && tier == Tier::Thorough) {
         // a few large configurations: chunks of thousands of frames, eight channels, long filters,
         // FFT blocks of thousands of points (sizes that small configurations never reach)
@@ -298,6 +313,17 @@ pub fn items(tier: Tier, id: &str) -> Vec<Item> {
                 cfgs.push(Cfg::fast(kind, R_147_160, 1.25, 4096, d));
             }
         }
+        if id != "C17" {
+            // position inside one chunk times the oversampling factor beyond 2^31 (and 2^32):
+            // chunks of tens of thousands of frames on a very fine sub-filter grid
+            for kind in [Kind::SI, Kind::SO] {
+                for (interp, chunk, os) in [(Interp::Linear, 70_000usize, 32_768usize), (Interp::Cubic, 80_000, 32_768), (Interp::Quadratic, 140_000, 32_768), (Interp::Nearest, 70_000, 65_536)] {
+                    let mut c = Cfg::sinc(kind, 0.8, 1.1, chunk, 16, os, interp, Kernel::Dispatch);
+                    c.channels = 1;
+                    cfgs.push(c);
+                }
+            }
+        }
         for c in cfgs.chunks(4) {
             out.push(Item { cfgs: c.to_vec(), f32_too: false });
         }
@@ -333,11 +359,12 @@ pub fn items(tier: Tier, id: &str) -> Vec<Item> {
         // algebraically equal ways of writing a size - chunk / ratio and chunk * (1 / ratio), or
         // a * r and a / (1 / r) - differ by one unit in the last place exactly there, and the
         // ceil / truncation that follows turns that into one frame
-        let pairs: [(usize, f64); 34] = [
+        let pairs: [(usize, f64); 37] = [
             (480, 0.96), (480, 0.48), (480, 0.24), (480, 1.92), (441, 0.91875), (882, 0.91875), (441, 0.459375),
             (7, 0.7), (3, 0.3), (6, 0.6), (12, 1.2), (11, 1.1), (9, 0.9), (7, 0.35), (7, 1.4), (11, 2.2), (9, 0.45),
             (11, 0.55), (13, 0.65), (13, 1.3), (17, 1.7), (17, 0.85), (19, 1.9), (19, 0.95),
             (480, 0.91875), (10, 0.7), (10, 0.3), (20, 0.35), (5, 1.4), (5, 2.2), (20, 0.45), (10, 1.1), (10, 0.9), (240, 1.8375),
+            (21, 1.4), (5, 5.0 / 23.0), (23, 5.0 / 23.0),
         ];
         let mut cfgs = Vec::new();
         for (chunk, ratio) in pairs {
@@ -369,6 +396,22 @@ pub fn items(tier: Tier, id: &str) -> Vec<Item> {
             }
         }
     }
+    if id == "C04" || id == "C03" || id == "C06" {
+        // wide ranges around a ratio with a whole-number step (1.0, 0.5): a call at that ratio
+        // directly followed by one at more than ten times the ratio (margins of "10 frames")
+        let mut cfgs = Vec::new();
+        for chunk in [5usize, 8, 64] {
+            for (ratio, m) in [(1.0, 16.0), (1.0, 12.0), (0.5, 32.0)] {
+                cfgs.push(Cfg::fast(Kind::FI, ratio, m, chunk, Degree::Cubic));
+                cfgs.push(Cfg::fast(Kind::FO, ratio, m, chunk, Degree::Linear));
+                cfgs.push(Cfg::sinc(Kind::SI, ratio, m, chunk, 8, 2, Interp::Linear, Kernel::Probe));
+                cfgs.push(Cfg::sinc(Kind::SO, ratio, m, chunk, 8, 2, Interp::Linear, Kernel::Probe));
+            }
+        }
+        for c in cfgs.chunks(4) {
+            out.push(Item { cfgs: c.to_vec(), f32_too: false });
+        }
+    }
     if id == "C09" || id == "C03" {
         // every kernel a caller can select explicitly (new_with_interpolator), not only the one
         // the run-time dispatch picks on this machine
@@ -392,6 +435,15 @@ pub fn items(tier: Tier, id: &str) -> Vec<Item> {
         for kind in [Kind::SI, Kind::SO] {
             for (l, os, interp) in [(1024usize, 160usize, Interp::Nearest), (1024, 100, Interp::Linear), (512, 160, Interp::Cubic), (256, 3, Interp::Quadratic)] {
                 let mut c = Cfg::sinc(kind, 48000.0 / 44100.0, 1.0, 1024, l, os, interp, Kernel::Dispatch);
+                c.channels = 1;
+                cfgs.push(c);
+            }
+        }
+        // filters of thousands of taps on every kernel a caller can select explicitly (blocked
+        // or unrolled summation loops have their second block only here)
+        for kind in [Kind::SI, Kind::SO] {
+            for (l, interp, kernel) in [(2048usize, Interp::Linear, Kernel::Sse), (2048, Interp::Cubic, Kernel::Avx), (2560, Interp::Nearest, Kernel::Scalar), (1536, Interp::Quadratic, Kernel::Sse)] {
+                let mut c = Cfg::sinc(kind, 1.2, 1.0, 256, l, 2, interp, kernel);
                 c.channels = 1;
                 cfgs.push(c);
             }
@@ -441,7 +493,7 @@ pub fn items(tier: Tier, id: &str) -> Vec<Item> {
 pub fn spec_for(id: &str, tier: Tier, cfg: &Cfg) -> Spec {
     let q = tier == Tier::Quick;
     let alpha = match id {
-        "C06" => Alpha::Ratio,
+        "C06" => Alpha::RatioRej,
         "C13" => Alpha::FullBad,
         "C09" => Alpha::FullBad,
         "C10" => Alpha::FullFewBad,
@@ -461,7 +513,7 @@ pub fn spec_for(id: &str, tier: Tier, cfg: &Cfg) -> Spec {
     } else {
         1
     };
-    let alpha_deep = if q { Alpha::Ratio } else { alpha };
+    let alpha_deep = if id == "C06" { Alpha::RatioRej } else if q { Alpha::Ratio } else { alpha };
     let big = cfg.kind.is_async() && cfg.chunk >= 200;
     let horizon = if big {
         [8, 4, 2, 2]
@@ -475,9 +527,10 @@ pub fn spec_for(id: &str, tier: Tier, cfg: &Cfg) -> Spec {
     let huge = cfg.chunk >= (1 << 24);
     let horizon = if huge { [3, 1, 1, 1] } else { horizon };
     let bound = if huge { if q { 0 } else { 1 } } else { bound };
-    let light = cfg.kind.is_async() && (cfg.max_rel == 3.0 || cfg.max_rel == 5.0);
+    let wide = cfg.kind.is_async() && (cfg.max_rel == 12.0 || cfg.max_rel == 16.0 || cfg.max_rel == 32.0);
+    let light = cfg.kind.is_async() && (cfg.max_rel == 3.0 || cfg.max_rel == 5.0 || wide);
     let horizon = if light { [4, 2, 2, 2] } else { horizon };
-    let bound = if light { 1 } else { bound };
+    let bound = if wide { 2 } else if light { 1 } else { bound };
     let alpha = if big || light { Alpha::Ratio } else { alpha };
     let alpha_deep = if big || light { Alpha::Ratio } else { alpha_deep };
     let signal = if id == "C10" || id == "C17" {
